@@ -409,6 +409,38 @@ class Stack:
             total = (total + 7) // 8 * 8
         return total
 
+    def make_exotic(self, rng):
+        """IO checks only (no lookups): give real-typed configuration members values that do not survive a detour
+        through another precision or a value-level normalisation: non-dyadic, float-subnormal, negative zero, huge"""
+        def ex(v, t):
+            if t not in REALS:
+                return v
+            pick = rng.randrange(6)
+            if pick == 0:
+                return v + 0.1
+            if pick == 1:
+                return -0.0
+            if pick == 2:
+                return 1e-40 if t == "float" else 1e-310
+            if pick == 3:
+                return 3.0e38 if t == "float" else 1.0e300
+            if pick == 4:
+                return -(v + 1.0) / 3.0
+            return v
+        for l in self.layers:
+            k = l["kind"]
+            if k in ("clamp", "backup"):
+                l["lo"] = [ex(v, l["in"][0]) for v in l["lo"]]
+                l["hi"] = [ex(v, l["in"][0]) for v in l["hi"]]
+            if k == "backup":
+                l["default"] = [ex(v, l["out"][0]) for v in l["default"]]
+            if k == "constant":
+                l["value"] = [ex(v, l["out"][0]) for v in l["value"]]
+            if k == "affine":
+                l["matrix"] = [[ex(v, l["in"][0]) for v in row] for row in l["matrix"]]
+        self.exotic = True
+        return self
+
     def has_interp(self):
         return any(l["kind"] in INTERP for l in self.layers)
 
